@@ -27,6 +27,16 @@
 (*            the signer element (ledger) / the quote's custom message     *)
 (*            (sgx).  exists: "t"/"f"; chain: "intact"/"broken" (does      *)
 (*            every link from this target up to the right root verify)     *)
+(*   targets  the `targets` list of the attestation file, as element ROLES *)
+(*            (ledger: device, attestation, ui, signer - the names the     *)
+(*            format fixes; sgx: ca = the X.509 element certified by the   *)
+(*            root of trust, qe = the one certifying the attestation key,  *)
+(*            att, quote).  The documented lists are <<ui, signer>> and    *)
+(*            <<quote>>; anything else may be listed as well, before or    *)
+(*            after, more than once.  ui/pow `exists` = is it listed.      *)
+(*   brk      the elements that do NOT verify under their certifier (one   *)
+(*            real corruption each).  ui/pow `chain` = "broken" iff some   *)
+(*            element on the way from the root to that target is in brk.   *)
 (*   both messages also carry HOW their bytes deviate from the documented  *)
 (*   layout - content included, because acceptance may depend on it        *)
 (*   (regex anchors, strip(), string terminators):                         *)
@@ -108,8 +118,38 @@ OkSgx(inp)    == /\ Given(inp)
                 /\ HashOk(inp)
 OkCondition(inp) == IF inp.plat = "ledger" THEN OkLedger(inp) ELSE OkSgx(inp)
 
+(***************************************************************************)
+(* Whatever else the file lists as a target does not matter: only the      *)
+(* chains of the REQUIRED targets (ui and signer; quote) count above.      *)
+(***************************************************************************)
+Range(q) == {q[i] : i \in DOMAIN q}
+LedgerOrder == <<"device", "attestation", "ui", "signer">>
+SgxOrder    == <<"ca", "qe", "att", "quote">>
+PathOf(inp, n) ==
+    IF inp.plat = "ledger"
+    THEN CASE n = "device"      -> {"device"}
+           [] n = "attestation" -> {"device", "attestation"}
+           [] n = "ui"          -> {"device", "attestation", "ui"}
+           [] n = "signer"      -> {"device", "attestation", "signer"}
+           [] OTHER             -> {}
+    ELSE CASE n = "ca"    -> {"ca"}
+           [] n = "qe"    -> {"ca", "qe"}
+           [] n = "att"   -> {"ca", "qe", "att"}
+           [] n = "quote" -> {"ca", "qe", "att", "quote"}
+           [] OTHER       -> {}
+TargetValid(inp, n) == /\ inp.root = "right" /\ PathOf(inp, n) # {}
+                       /\ PathOf(inp, n) \cap Range(inp.brk) = {}
+\* The SGX command ends with an internal error (NotImplementedError out of validate_and_get_values:
+\* an X.509 / attestation-key element "can't provide a value") when a VALID element other than the
+\* quote is listed as a target.  Nothing is let through by that; the verdict of such inputs is left
+\* open in the refusing direction (Return still implies OkCondition).
+SgxExtraTargetOpen(inp) ==
+    /\ inp.plat = "sgx"
+    /\ \E i \in DOMAIN inp.targets : inp.targets[i] # "quote" /\ TargetValid(inp, inp.targets[i])
+
 \* outcome: "return" | "error"
-ReturnIffOkP(inp, outcome) == (outcome = "return") <=> OkCondition(inp)
+ReturnIffOkP(inp, outcome) == IF SgxExtraTargetOpen(inp) THEN (outcome = "return") => OkCondition(inp)
+                              ELSE (outcome = "return") <=> OkCondition(inp)
 
 (***************************************************************************)
 (* Documented layouts (docs/attestation.md), 0-based offset / length.      *)
@@ -243,8 +283,14 @@ SepIs(c, b) == IF c = "dot" THEN b = Dot ELSE c \in DOMAIN SepTable /\ SepTable[
 PowFormatLen(hdr) == IF hdr \in {"legacy", "sepleg"} THEN LegLen
                      ELSE IF hdr \in {"current", "sep"} THEN PowLen ELSE 0
 \* k33: key identity -> the 33 bytes of its compressed encoding
+Listed(inp, n) == IF n \in Range(inp.targets) THEN "t" ELSE "f"
+ChainOf(inp, n) == IF PathOf(inp, n) \cap Range(inp.brk) = {} THEN "intact" ELSE "broken"
 Consistent(inp, s, k33) ==
     /\ inp.plat \in {"ledger", "sgx"}
+    /\ Range(inp.targets) \cup Range(inp.brk) \subseteq Range(IF inp.plat = "ledger" THEN LedgerOrder ELSE SgxOrder)
+    /\ inp.plat = "ledger" => /\ inp.ui.exists = Listed(inp, "ui") /\ inp.pow.exists = Listed(inp, "signer")
+                              /\ inp.ui.chain = ChainOf(inp, "ui") /\ inp.pow.chain = ChainOf(inp, "signer")
+    /\ inp.plat = "sgx" => inp.pow.exists = Listed(inp, "quote") /\ inp.pow.chain = ChainOf(inp, "quote")
     /\ inp.pow.hdr \in {"current", "legacy", "foreign", "sep", "sepleg"}
     /\ ExtIs(inp.pow, s.pow, PowFormatLen(inp.pow.hdr))
     /\ LET c == Core(inp.pow, s.pow) IN
